@@ -63,11 +63,19 @@ def _weight(e):
 def run(chk, replay=None):
     thorough = chk.tier == "thorough"
     w = core.workdir("c11")
-    pool = cf.ThreadPoolExecutor(max_workers=3)
+    pool = cf.ThreadPoolExecutor(max_workers=5)
 
     # (M) store model: every history of insertions, exhaustively (runs while the drivers work)
-    mc_cfgs = ["MC_RelStore_3_4.cfg"] + (["MC_RelStore_3_5.cfg"] if thorough else [])
-    mc_jobs = [pool.submit(core.model_check, "relstore/RelStore.tla", c, max(2, core.NCPU // 2), 7200) for c in mc_cfgs]
+    # quick: all 26 operations, 3 large primes, length <= 4 (475 255 states).  thorough adds length 5 and 4 large
+    # primes with one parity for complete/double relations (16 / 25 operations), and - when there are enough cores for
+    # the 30 min budget - all 26 operations at length 5 (12.4 M states)
+    mc_cfgs = ["MC_RelStore_3_4.cfg"]
+    if thorough:
+        mc_cfgs += ["MC_RelStore_3_5r.cfg", "MC_RelStore_4_4r.cfg"]
+        if core.NCPU >= 12 or os.environ.get("VERIF_C11_FULL5"):
+            mc_cfgs.append("MC_RelStore_3_5.cfg")
+    mcw = max(2, core.NCPU // (2 * len(mc_cfgs))) if core.NCPU < 12 else max(2, (core.NCPU - 4) // len(mc_cfgs))
+    mc_jobs = [pool.submit(core.model_check, "relstore/RelStore.tla", c, mcw, 7200) for c in mc_cfgs]
     mc_jobs.append(pool.submit(core.model_check, "relstore/Pack.tla", "MC_Pack_3.cfg", 2, 1800))
 
     # (G) histories printed by the model
